@@ -628,7 +628,7 @@ def needed_extent(orders):
 
 
 def gen_getitem_case(rng):
-    shape = rng.choice([(), (1,), (2,), (3,), (2, 2), (2, 3), (3, 3), (3, 1), (2, 3, 2), (2, 2, 2), (3, 2, 2)])
+    shape = rng.choice([(), (1,), (2,), (3,), (2, 2), (2, 3), (3, 3), (3, 1), (2, 3, 2), (2, 2, 2), (3, 2, 2), (2, 3, 2)])
     ninf = rng.choice([1, 1, 2, 2, 3]) if len(shape) < 3 else rng.choice([1, 1, 2])
     if rng.random() < 0.08 and shape:
         ninf = 0
@@ -674,6 +674,15 @@ def gen_getitem_case(rng):
     if ninf:
         for _ in range(rng.randint(0, 2)):
             views.append(dict(item=unify([fin_index(d) for d in shape]), orders=[[rng.randint(0, N + 1) for _ in range(ninf)] for _ in range(2)]))
+        if len(shape) >= 2 and rng.random() < 0.6:
+            # a list after a slice (and, with three finite dimensions, before another one)
+            item = [["slice", None, None, None] for _ in shape]
+            k = rng.randrange(1, len(shape))
+            item[k] = [rng.randint(-shape[k], shape[k] - 1) for _ in range(rng.choice([1, 2, 3]))]
+            if len(shape) == 3 and rng.random() < 0.3:
+                j = rng.choice([x for x in range(3) if x != k])
+                item[j] = rng.randint(-shape[j], shape[j] - 1)
+            views.append(dict(item=item, orders=[[rng.randint(0, N + 1) for _ in range(ninf)] for _ in range(2)]))
     return dict(kind="numpy", shape=list(shape), ninf=ninf, N=N, table=table, requests=requests, views=views, extra=[rng.randint(0, 2) for _ in range(ninf)])
 
 
